@@ -35,6 +35,11 @@ def run(check: Check, repo: Repo, tier: str) -> None:
     K.sibling_details(check, repo)
     K.int_range_table(check, repo)
     K.float_text(check, repo)
+    L.escape_range(check, repo)
+    L.block_string_charset(check, repo)
+    from rules import generic_rules as G17
+
+    G17.implicit_concat(check, [repo.mod(m) for m in ("language.parser", "language.lexer", "language.printer", "utilities.print_schema", "utilities.build_ast_schema", "utilities.extend_schema")])
     D.default_verbatim(check, repo)
     L.list_separators(check, repo)
     from rules import exec_rules as X
